@@ -219,12 +219,12 @@ func c08Cells() []c08Cell {
 			return pkt(p, l >= 2)
 		}},
 		{"RecvDelta.small", func(r *core.Rand, l int) c08Probe {
-			u := []int64{int64(r.Pick(0, 1, 254)), 255, int64(r.Pick(256, -1)), int64(r.Pick(257, 1000, -2, -32768, 32767, 1<<40, -(1 << 40)))}[l]
+			u := []int64{int64(r.Pick(0, 1, 254)), 255, int64(r.Pick(256, -1)), int64(r.Pick(257, 1000, -2, -32768, 32767, 1<<40, -(1 << 40), 1<<32, 1<<32+5, -(1 << 32), 1<<32+255, 1<<16, 1<<16+7, 1<<24+9, 1<<31, 1<<48+3, 1<<52))}[l]
 			d := rtcp.RecvDelta{Type: 1, Delta: u * 250}
 			return c08Probe{over: l >= 2, marshal: d.Marshal, want: []byte{byte(u)}, value: d}
 		}},
 		{"RecvDelta.large", func(r *core.Rand, l int) c08Probe {
-			u := []int64{int64(r.Pick(-32767, 32766, 0, -1, 256)), int64(r.Pick(-32768, 32767)), int64(r.Pick(-32769, 32768)), int64(r.Pick(65535, 65536, -65536, 1<<40, -(1 << 40)))}[l]
+			u := []int64{int64(r.Pick(-32767, 32766, 0, -1, 256)), int64(r.Pick(-32768, 32767)), int64(r.Pick(-32769, 32768)), int64(r.Pick(65535, 65536, -65536, 1<<40, -(1 << 40), 1<<32, 1<<32+5, -(1 << 32), 1<<32-32768, 1<<16+5, 1<<31, -(1 << 31), 1<<48+3, 1<<52))}[l]
 			d := rtcp.RecvDelta{Type: 2, Delta: u * 250}
 			return c08Probe{over: l >= 2, marshal: d.Marshal, want: []byte{byte(uint16(int16(u)) >> 8), byte(uint16(int16(u)))}, value: d}
 		}},
